@@ -137,6 +137,22 @@ func enumPlan(prop, tier string, seed uint64) []enumCase {
 			}
 		}
 	}
+	if prop == "C06" {
+		// error-number sweep: an ERR packet with every (thorough) / every documented
+		// server and client (quick) error number, as the first packet of the dump
+		// and after the first transaction
+		hs := mix64(seed, 7000)
+		lo, hi := 1000, 2100
+		if tier == "thorough" {
+			lo, hi = 1, 65535
+		}
+		for c := lo; c <= hi; c++ {
+			out = append(out, enumCase{hs, EnumSpec{Kind: int(stopERR), At: 2, Pacing: c % 2, Code: c}})
+		}
+		for _, c := range []int{3000, 3024, 3100, 3159, 3200, 4000, 4031, 4100} {
+			out = append(out, enumCase{hs, EnumSpec{Kind: int(stopERR), At: 2, Code: c}})
+		}
+	}
 	return out
 }
 
